@@ -40,7 +40,7 @@ class SchedAbort(BaseException):
 class T:
     __slots__ = ('name', 'sem', 'state', 'pred', 'wake_at', 'done', 'prio',
                  'steps', 'what', 'ident', 'exc', 'timeout_at', 'loc',
-                 'blocked_time')
+                 'blocked_time', 'timeout_ok')
 
     def __init__(self, name, prio):
         self.name = name
@@ -49,6 +49,7 @@ class T:
         self.pred = None
         self.wake_at = None
         self.timeout_at = None
+        self.timeout_ok = None
         self.done = False
         self.prio = prio
         self.steps = 0
@@ -122,9 +123,20 @@ class Sched:
                     self.evaluating -= 1
                 if holds:
                     out.append(t)
-                elif t.timeout_at is not None and t.timeout_at <= self.vnow:
+                elif t.timeout_at is not None and t.timeout_at <= self.vnow \
+                        and self._timeout_counts(t):
                     out.append(t)
         return out
+
+    def _timeout_counts(self, t):
+        ok = getattr(t, 'timeout_ok', None)
+        if ok is None:
+            return True
+        self.evaluating += 1
+        try:
+            return bool(ok())
+        finally:
+            self.evaluating -= 1
 
     def _pick(self, options):
         starved = [o for o in options if o != 'TICK'
@@ -173,7 +185,8 @@ class Sched:
             timers = [t for t in self.order if not t.done and (
                 t.state == 'sleep' or (t.state == 'blocked'
                                        and t.timeout_at is not None
-                                       and t.timeout_at > self.vnow))]
+                                       and t.timeout_at > self.vnow
+                                       and self._timeout_counts(t)))]
             options = list(cands)
             if timers:
                 options.append('TICK')
@@ -229,13 +242,16 @@ class Sched:
             t.name, t.state, '(' + t.what + ')' if t.what else '')
             for t in self.order if not t.done)
 
-    def block_until(self, pred, what='', timeout=None):
-        """returns True when pred held, False on (virtual) time-out"""
+    def block_until(self, pred, what='', timeout=None, timeout_ok=None):
+        """returns True when pred held, False on (virtual) time-out.
+        timeout_ok: extra condition for the time-out to count (a lock wait
+        only times out while the lock's owner cannot run)"""
         me = self.me()
         if me is None:
             raise RuntimeError('unmanaged thread blocks on a shim primitive')
         me.state, me.pred, me.what = 'blocked', pred, what
         me.timeout_at = None if timeout is None else self.vnow + timeout
+        me.timeout_ok = timeout_ok
         try:
             self.switch('block:' + what)
         finally:
@@ -246,6 +262,7 @@ class Sched:
             finally:
                 self.evaluating -= 1
             me.timeout_at = None
+            me.timeout_ok = None
         return not timed_out
 
     def sleep(self, dt):
@@ -345,16 +362,34 @@ class ShimRLock:
 
     def acquire(self, blocking=True, timeout=-1):
         me = _th.get_ident()
+
+        def owner_stuck():
+            # a time-out of the production code (1 s) fires only while the
+            # owner is itself unable to run (blocked or asleep): an owner that
+            # is merely passed over by the scheduler would have released the
+            # lock long before a real second is over
+            rec = S.threads.get(self.owner)
+            return rec is not None and not rec.done and \
+                rec.state in ('blocked', 'sleep') and not (
+                    rec.state == 'blocked' and rec.pred is not None
+                    and rec.pred())
+
+        def wait():
+            if timeout is None or timeout < 0:
+                S.block_until(lambda: self.owner is None, 'lock')
+                return True
+            return S.block_until(lambda: self.owner is None, 'lock',
+                                 timeout, owner_stuck)
         if self.owner not in (None, me):
             if not blocking:
                 return False
-            # the 1 s time-out of the production code never fires while the
-            # owner can still run (assumption, see DESIGN.md section 6)
-            S.block_until(lambda: self.owner is None, 'lock')
+            if not wait() and self.owner not in (None, me):
+                return False
         else:
             S.switch('lock.acquire')
             if self.owner not in (None, me):
-                S.block_until(lambda: self.owner is None, 'lock')
+                if not wait() and self.owner not in (None, me):
+                    return False
         self.owner = me
         self.count += 1
         return True
